@@ -310,6 +310,7 @@ GEN = {
     "C09": "iterate_over_valid_clips (which clips are evaluated, and with which annotation)",
     "C13": "_compute_similarity_matrix (the pairs on which the comparison function is queried and the row/column bookkeeping of the sparse adjacency matrix) and group_sound_events itself (the matrix handed to connected_components, the one-pass grouping by label through the defaultdict, read as the log of its insertions; the comparison function and scipy's connected_components are parameters of the generated definitions, so the theorems hold for every behaviour of either)",
     "C18": "the statements of RecordingAdapter.assemble_aoef and assemble_soundevent that compute the path handed to the returned object (relative_to on write, join on read; self.audio_dir and obj.path are the parameters; pathlib itself is the list-of-components model)",
+    "C15": "the part of load_clip that decides what is read and what the time axis says (backward slice on the locals handed to load_audio(offset, samples) and create_time_range(start_time, end_time, samplerate): floor(start x sr), floor((end - start) x sr), offset / sr, offset / sr + samples / sr)",
 }
 for _pid, _what in GEN.items():
     _t, _n, _tech, _ref = CLAIMED[_pid]
